@@ -59,7 +59,7 @@ def handle (args : List String) : Option String :=
         pure s!"ok {encToks (canon cfg.ns o.wire)}"
       else pure (outLine cfg "ok" ts)
     | "reply" => pure (outLine cfg "ok" ts)
-    | "encel" => do
+    | "encel" | "replyel" => do
       let (n, as) ← startOf start
       pure (outLine cfg "ok" (replaceOuter n as 0 ts))
     | "iq" => pure (stanzaLine cfg .iq ts)
